@@ -29,6 +29,12 @@ var e3Once sync.Once
 func e3Init() {
 	e3Once.Do(func() {
 		SetLoggerOutput(io.Discard)
+		// make the Go runtime create its own epoll instance and wake-up descriptor now,
+		// so that they are part of every census baseline
+		if ln, err := net.Listen("tcp4", "127.0.0.1:0"); err == nil {
+			ln.Close()
+		}
+		fdCensus()
 	})
 }
 
@@ -540,3 +546,1275 @@ func liveTest(t *testing.T, prop, slot string, checks func() int) {
 func TestVerifC04Live(t *testing.T) { liveTest(t, "C04", "rapid:C04live", nil) }
 
 var _ = syscall.SOL_SOCKET
+
+// ------------------------------------------------------------------ C13, Shutdown half (E3)
+
+type shutScn struct {
+	Network    string `json:"network"`
+	Idle       int    `json:"idle"`        // connected, one request served, then idle
+	Fresh      int    `json:"fresh"`       // connected, never sent anything
+	Busy       int    `json:"busy"`        // request in progress (handler blocked until released)
+	Closing    int    `json:"closing"`     // clients that close right around Shutdown
+	DeadlineMS int    `json:"deadline_ms"` // Shutdown context deadline
+	ReleaseMS  int    `json:"release_ms"`  // busy handlers are released this long after Shutdown started (<0: only after Shutdown returned)
+}
+
+func runShutdown(s shutScn) (sig, msg string) {
+	e3Init()
+	ln, addr, err := e3Listen(s.Network)
+	if err != nil {
+		return "", ""
+	}
+	release := make(chan struct{})
+	var inBusy, served int32
+	var mu sync.Mutex
+	var conns []Connection
+	onRequest := func(ctx context.Context, conn Connection) error {
+		rd := conn.Reader()
+		n := rd.Len()
+		p, _ := rd.Next(n)
+		busy := n > 0 && p[0] == 'B'
+		rd.Release()
+		if busy {
+			atomic.AddInt32(&inBusy, 1)
+			<-release
+			if w, err := conn.Writer().Malloc(4); err == nil {
+				copy(w, "done")
+				conn.Writer().Flush()
+			}
+			atomic.AddInt32(&inBusy, -1)
+		} else {
+			if w, err := conn.Writer().Malloc(2); err == nil {
+				copy(w, "ok")
+				conn.Writer().Flush()
+			}
+		}
+		atomic.AddInt32(&served, 1)
+		return nil
+	}
+	evl, _ := NewEventLoop(onRequest, WithOnPrepare(func(conn Connection) context.Context {
+		mu.Lock()
+		conns = append(conns, conn)
+		mu.Unlock()
+		return context.Background()
+	}))
+	served0 := make(chan error, 1)
+	go func() { served0 <- evl.Serve(ln) }()
+	if s.Network == "unix" {
+		defer os.Remove(addr)
+	}
+	var relOnce sync.Once
+	doRelease := func() { relOnce.Do(func() { close(release) }) }
+	defer doRelease()
+
+	dial := func() (net.Conn, error) {
+		nw := "tcp"
+		if s.Network == "unix" {
+			nw = "unix"
+		}
+		return net.DialTimeout(nw, addr, 5*time.Second)
+	}
+	var idle, fresh, busy, closing []net.Conn
+	closeAll := func() {
+		for _, l := range [][]net.Conn{idle, fresh, busy, closing} {
+			for _, c := range l {
+				c.Close()
+			}
+		}
+	}
+	defer closeAll()
+	for i := 0; i < s.Idle; i++ {
+		c, err := dial()
+		if err != nil {
+			return "dial", err.Error()
+		}
+		idle = append(idle, c)
+		c.Write([]byte("I"))
+		buf := make([]byte, 2)
+		c.SetReadDeadline(time.Now().Add(10 * time.Second))
+		if _, err := io.ReadFull(c, buf); err != nil {
+			return "idle-request", fmt.Sprintf("idle client %d got no answer: %v", i, err)
+		}
+	}
+	for i := 0; i < s.Fresh; i++ {
+		c, err := dial()
+		if err != nil {
+			return "dial", err.Error()
+		}
+		fresh = append(fresh, c)
+	}
+	for i := 0; i < s.Busy; i++ {
+		c, err := dial()
+		if err != nil {
+			return "dial", err.Error()
+		}
+		busy = append(busy, c)
+		c.Write([]byte("B"))
+	}
+	for i := 0; i < s.Closing; i++ {
+		c, err := dial()
+		if err != nil {
+			return "dial", err.Error()
+		}
+		closing = append(closing, c)
+	}
+	total := s.Idle + s.Fresh + s.Busy + s.Closing
+	if !waitProgress(func() bool {
+		mu.Lock()
+		defer mu.Unlock()
+		return len(conns) >= total && int(atomic.LoadInt32(&inBusy)) >= s.Busy
+	}, func() int64 { mu.Lock(); defer mu.Unlock(); return int64(len(conns)) + int64(atomic.LoadInt32(&inBusy)) }) {
+		return "accept-stall", fmt.Sprintf("only %d of %d connections were accepted\n%s", len(conns), total, goroutineDump())
+	}
+	// idle connections must really be idle before Shutdown looks at them
+	time.Sleep(2 * time.Millisecond)
+	go func() {
+		for _, c := range closing {
+			c.Close()
+		}
+	}()
+	if s.ReleaseMS >= 0 {
+		go func() {
+			time.Sleep(time.Duration(s.ReleaseMS) * time.Millisecond)
+			doRelease()
+		}()
+	}
+	ctx, cancel := context.WithTimeout(context.Background(), time.Duration(s.DeadlineMS)*time.Millisecond)
+	defer cancel()
+	t0 := time.Now()
+	resc := make(chan error, 1)
+	go func() { resc <- evl.Shutdown(ctx) }()
+	var serr error
+	select {
+	case serr = <-resc:
+	case <-time.After(time.Duration(s.DeadlineMS)*time.Millisecond + 20*time.Second):
+		return "shutdown-hang", fmt.Sprintf("Shutdown did not return within its %d ms deadline + 20 s\n%s", s.DeadlineMS, goroutineDump())
+	}
+	took := time.Since(t0)
+	// Serve returns once Shutdown was called
+	select {
+	case <-served0:
+	case <-time.After(10 * time.Second):
+		return "serve-not-returned", "Serve did not return after Shutdown"
+	}
+	busyAtEnd := s.Busy > 0 && (s.ReleaseMS < 0 || s.ReleaseMS > s.DeadlineMS+200)
+	busyEarly := s.Busy == 0 || (s.ReleaseMS >= 0 && s.ReleaseMS+300 < s.DeadlineMS)
+	mu.Lock()
+	all := append([]Connection(nil), conns...)
+	mu.Unlock()
+	if serr == nil {
+		// nil: no tracked connection remains and every server-side connection is closed
+		if busyAtEnd {
+			return "nil-with-busy", fmt.Sprintf("Shutdown returned nil after %v although %d handlers were still running", took, atomic.LoadInt32(&inBusy))
+		}
+		left := 0
+		evlImpl := evl.(*eventLoop)
+		_ = evlImpl
+		for _, c := range all {
+			if c.IsActive() {
+				left++
+			}
+		}
+		if left > 0 {
+			return "nil-with-active", fmt.Sprintf("Shutdown returned nil but %d server-side connections are still active", left)
+		}
+	} else {
+		if serr != ctx.Err() {
+			return "shutdown-error", fmt.Sprintf("Shutdown returned %v, want the context's error %v", serr, ctx.Err())
+		}
+		if busyEarly {
+			return "deadline-without-busy", fmt.Sprintf("Shutdown hit its %d ms deadline (took %v) although no handler was busy that long (busy=%d release=%d ms)", s.DeadlineMS, took, s.Busy, s.ReleaseMS)
+		}
+		if took < time.Duration(s.DeadlineMS)*time.Millisecond-5*time.Millisecond {
+			return "deadline-early", fmt.Sprintf("Shutdown returned the context error after %v, before its %d ms deadline", took, s.DeadlineMS)
+		}
+		// busy connections keep working: release them and the answer still arrives
+		doRelease()
+		for i, c := range busy {
+			buf := make([]byte, 4)
+			c.SetReadDeadline(time.Now().Add(10 * time.Second))
+			if _, err := io.ReadFull(c, buf); err != nil || string(buf) != "done" {
+				return "busy-disturbed", fmt.Sprintf("busy connection %d did not get its answer after Shutdown's deadline passed: %q %v", i, buf, err)
+			}
+		}
+	}
+	// idle connections were closed by Shutdown (the client sees EOF), whatever Shutdown returned
+	for i, c := range append(append([]net.Conn(nil), idle...), fresh...) {
+		c.SetReadDeadline(time.Now().Add(10 * time.Second))
+		if _, err := c.Read(make([]byte, 1)); err == nil {
+			return "idle-not-closed", fmt.Sprintf("idle connection %d is still open after Shutdown", i)
+		} else if ne, ok := err.(net.Error); ok && ne.Timeout() {
+			return "idle-not-closed", fmt.Sprintf("idle connection %d was not closed by Shutdown", i)
+		}
+	}
+	// accepting has stopped
+	if c, err := dial(); err == nil {
+		c.SetReadDeadline(time.Now().Add(2 * time.Second))
+		_, rerr := c.Read(make([]byte, 1))
+		c.Close()
+		if ne, ok := rerr.(net.Error); ok && ne.Timeout() {
+			return "still-accepting", "a client could connect and stay connected after Shutdown"
+		}
+	}
+	return "", ""
+}
+
+func TestVerifC13Live(t *testing.T) {
+	st := newStats("C13")
+	defer st.write()
+	if vReplay != "" {
+		var rec struct {
+			Scenario shutScn `json:"scenario"`
+		}
+		if err := vLoadReplay(&rec); err != nil {
+			t.Fatalf("replay: %v", err)
+		}
+		st.eval()
+		for i := 0; i < 10; i++ {
+			if sig, msg := runShutdown(rec.Scenario); sig != "" {
+				vReport(vViolation{Property: "C13", Slot: "replay:C13", Signature: sig, Message: msg, Replay: map[string]interface{}{"scenario": rec.Scenario}})
+				t.Fatalf("C13 violated [%s] (attempt %d): %s", sig, i+1, msg)
+			}
+		}
+		return
+	}
+	rapid.Check(t, func(t *rapid.T) {
+		s := shutScn{Network: rapid.SampledFrom([]string{"tcp4", "unix"}).Draw(t, "network")}
+		s.Idle = rapid.IntRange(0, 4).Draw(t, "idle")
+		s.Fresh = rapid.IntRange(0, 2).Draw(t, "fresh")
+		s.Busy = rapid.IntRange(0, 3).Draw(t, "busy")
+		s.Closing = rapid.IntRange(0, 3).Draw(t, "closing")
+		s.DeadlineMS = rapid.SampledFrom([]int{150, 400, 900}).Draw(t, "deadline")
+		switch rapid.IntRange(0, 2).Draw(t, "release") {
+		case 0:
+			s.ReleaseMS = rapid.IntRange(0, 60).Draw(t, "releaseMs")
+		case 1:
+			s.ReleaseMS = -1
+		default:
+			s.ReleaseMS = s.DeadlineMS + 400
+		}
+		sig, msg := runShutdown(s)
+		st.eval()
+		if sig != "" {
+			fails := 1
+			for i := 0; i < 4; i++ {
+				if s2, _ := runShutdown(s); s2 != "" {
+					fails++
+				}
+			}
+			msg = fmt.Sprintf("%s (reproduced %d/5 times)", msg, fails)
+			vReport(vViolation{Property: "C13", Slot: "rapid:C13live", Signature: sig, Message: msg, Replay: map[string]interface{}{"scenario": s}})
+			t.Fatalf("C13 violated [%s]: %s", sig, msg)
+		}
+		st.class("net-" + s.Network)
+		if (s.Busy > 0 && s.Idle+s.Fresh > 0) || s.Closing > 0 {
+			st.class("nontrivial")
+			if st.nontrivial(fmt.Sprintf("%+v", s)) {
+				st.sample(s)
+			}
+		}
+	})
+}
+
+// ------------------------------------------------------------------ C14: dial
+
+type dialScn struct {
+	Target    string `json:"target"` // tcp4, tcp6, unix, refused, blackhole, reset
+	TimeoutUS int    `json:"timeout_us"`
+	N         int    `json:"n"` // concurrent dials
+}
+
+// blackhole returns the address of a listener whose accept queue is full: further SYNs are dropped.
+func blackhole() (addr string, cleanup func(), ok bool) {
+	fd, err := syscall.Socket(syscall.AF_INET, syscall.SOCK_STREAM, 0)
+	if err != nil {
+		return "", nil, false
+	}
+	sa := &syscall.SockaddrInet4{Addr: [4]byte{127, 0, 0, 1}}
+	if syscall.Bind(fd, sa) != nil || syscall.Listen(fd, 0) != nil {
+		syscall.Close(fd)
+		return "", nil, false
+	}
+	lsa, _ := syscall.Getsockname(fd)
+	port := lsa.(*syscall.SockaddrInet4).Port
+	addr = fmt.Sprintf("127.0.0.1:%d", port)
+	// fillers occupy the accept queue (backlog 0 admits one; a second one makes sure)
+	var fillers []net.Conn
+	for i := 0; i < 2; i++ {
+		c, err := net.DialTimeout("tcp4", addr, 300*time.Millisecond)
+		if err == nil {
+			fillers = append(fillers, c)
+		}
+	}
+	return addr, func() {
+		for _, c := range fillers {
+			c.Close()
+		}
+		syscall.Close(fd)
+	}, true
+}
+
+func slotsInUse() (n int, problem string) {
+	for _, p := range pollmanager.polls {
+		dp, ok := p.(*defaultPoll)
+		if !ok {
+			continue
+		}
+		lock(&dp.opcache.locked)
+		lock(&dp.opcache.freelocked)
+		k, pr := opCensus(dp)
+		unlock(&dp.opcache.freelocked)
+		unlock(&dp.opcache.locked)
+		n += k
+		if pr != "" {
+			problem = pr
+		}
+	}
+	return
+}
+
+// connIsNil also recognises a nil *TCPConnection / *UnixConnection wrapped in the Connection interface
+// (what DialConnection returns next to an error); no reflection: the value may be in use by other goroutines.
+func connIsNil(c Connection) bool {
+	switch v := c.(type) {
+	case nil:
+		return true
+	case *TCPConnection:
+		return v == nil
+	case *UnixConnection:
+		return v == nil
+	case *connection:
+		return v == nil
+	}
+	return false
+}
+
+func runDial(s dialScn) (sig, msg string, timedOut, failed int) {
+	e3Init()
+	Initialize()
+	var addr, network string
+	cleanup := func() {}
+	switch s.Target {
+	case "tcp4", "tcp6", "unix":
+		ln, a, err := e3Listen(s.Target)
+		if err != nil {
+			return "", "", 0, 0
+		}
+		addr, network = a, s.Target
+		if network != "unix" {
+			network = "tcp"
+		}
+		go func() {
+			for {
+				c, err := ln.Accept()
+				if err != nil {
+					return
+				}
+				go func() { io.Copy(c, c); c.Close() }()
+			}
+		}()
+		cleanup = func() {
+			ln.Close()
+			if s.Target == "unix" {
+				os.Remove(a)
+			}
+		}
+	case "reset":
+		ln, a, err := e3Listen("tcp4")
+		if err != nil {
+			return "", "", 0, 0
+		}
+		addr, network = a, "tcp"
+		go func() {
+			for {
+				c, err := ln.Accept()
+				if err != nil {
+					return
+				}
+				c.(*net.TCPConn).SetLinger(0)
+				c.Close()
+			}
+		}()
+		cleanup = func() { ln.Close() }
+	case "refused":
+		ln, a, err := e3Listen("tcp4")
+		if err != nil {
+			return "", "", 0, 0
+		}
+		ln.Close()
+		addr, network = a, "tcp"
+	case "blackhole":
+		a, cl, ok := blackhole()
+		if !ok {
+			return "", "", 0, 0
+		}
+		addr, network, cleanup = a, "tcp", cl
+	}
+	defer cleanup()
+	time.Sleep(time.Millisecond)
+	socks0 := socketCount()
+	slots0, _ := slotsInUse()
+	timeout := time.Duration(s.TimeoutUS) * time.Microsecond
+	type res struct {
+		conn Connection
+		err  error
+		took time.Duration
+	}
+	results := make([]res, s.N)
+	var wg sync.WaitGroup
+	for i := 0; i < s.N; i++ {
+		i := i
+		wg.Add(1)
+		go func() {
+			defer wg.Done()
+			t0 := time.Now()
+			c, err := DialConnection(network, addr, timeout)
+			results[i] = res{c, err, time.Since(t0)}
+		}()
+	}
+	donec := make(chan struct{})
+	go func() { wg.Wait(); close(donec) }()
+	select {
+	case <-donec:
+	case <-time.After(timeout + 30*time.Second):
+		return "dial-hang", fmt.Sprintf("a dial with a %v timeout had not returned after %v\n%s", timeout, timeout+30*time.Second, goroutineDump()), 0, 0
+	}
+	for i, r := range results {
+		// the typed-nil trap: a nil *TCPConnection inside the Connection interface counts as nil
+		isNil := connIsNil(r.conn)
+		switch {
+		case !isNil && r.err != nil:
+			return "conn-and-error", fmt.Sprintf("dial %d returned both a connection and the error %v", i, r.err), 0, 0
+		case isNil && r.err == nil:
+			return "neither", fmt.Sprintf("dial %d returned neither a connection nor an error", i), 0, 0
+		}
+		if r.took > timeout+5*time.Second {
+			return "timeout-ignored", fmt.Sprintf("dial %d took %v with a %v timeout", i, r.took, timeout), 0, 0
+		}
+		if r.err != nil {
+			failed++
+			ne, isNet := r.err.(net.Error)
+			deadline := strings.Contains(r.err.Error(), "timeout") || strings.Contains(r.err.Error(), "deadline")
+			if deadline {
+				timedOut++
+				if !isNet || !ne.Timeout() {
+					return "timeout-not-reported", fmt.Sprintf("dial %d timed out after %v (%v) but the error does not report Timeout()", i, r.took, r.err), timedOut, failed
+				}
+			}
+			if s.Target == "blackhole" && !deadline {
+				return "blackhole-error", fmt.Sprintf("dial %d to a listener that drops SYNs failed with %v after %v (timeout %v)", i, r.err, r.took, timeout), timedOut, failed
+			}
+			continue
+		}
+		if s.Target == "refused" || s.Target == "blackhole" {
+			return "impossible-success", fmt.Sprintf("dial %d to a %s target succeeded", i, s.Target), timedOut, failed
+		}
+		if s.Target == "reset" {
+			continue
+		}
+		// usable in both directions: echo round trip
+		c := r.conn
+		c.SetReadTimeout(10 * time.Second)
+		payload := keyedBytes(i*100, 64)
+		if _, err := c.Write(payload); err != nil {
+			return "not-usable", fmt.Sprintf("dial %d succeeded but Write failed: %v", i, err), timedOut, failed
+		}
+		p, err := c.Reader().Next(len(payload))
+		if err != nil || string(p) != string(payload) {
+			return "not-usable", fmt.Sprintf("dial %d succeeded but the echo did not come back: %d bytes, %v", i, len(p), err), timedOut, failed
+		}
+		c.Reader().Release()
+		if !c.IsActive() {
+			return "not-usable", fmt.Sprintf("dial %d returned an inactive connection", i), timedOut, failed
+		}
+	}
+	for _, r := range results {
+		if r.err == nil && !connIsNil(r.conn) {
+			r.conn.Close()
+		}
+	}
+	// nothing left behind: descriptors and poller slots are back at their baselines
+	var socks1, slots1 int
+	var prob string
+	ok := false
+	for i := 0; i < 400; i++ {
+		socks1 = socketCount()
+		slots1, prob = slotsInUse()
+		if socks1 <= socks0 && slots1 <= slots0 && prob == "" {
+			ok = true
+			break
+		}
+		time.Sleep(5 * time.Millisecond)
+	}
+	if !ok {
+		if prob != "" {
+			return "slot-census", prob, timedOut, failed
+		}
+		if socks1 > socks0 {
+			return "fd-leak", fmt.Sprintf("%d socket descriptors before the dials, %d after all of them failed or were closed (target %s, %d failed)", socks0, socks1, s.Target, failed), timedOut, failed
+		}
+		return "slot-leak", fmt.Sprintf("%d poller slots in use before the dials, %d afterwards (target %s, %d failed)", slots0, slots1, s.Target, failed), timedOut, failed
+	}
+	return "", "", timedOut, failed
+}
+
+func TestVerifC14(t *testing.T) {
+	st := newStats("C14")
+	defer st.write()
+	if vReplay != "" {
+		var rec struct {
+			Scenario dialScn `json:"scenario"`
+		}
+		if err := vLoadReplay(&rec); err != nil {
+			t.Fatalf("replay: %v", err)
+		}
+		st.eval()
+		for i := 0; i < 20; i++ {
+			if sig, msg, _, _ := runDial(rec.Scenario); sig != "" {
+				vReport(vViolation{Property: "C14", Slot: "replay:C14", Signature: sig, Message: msg, Replay: map[string]interface{}{"scenario": rec.Scenario}})
+				t.Fatalf("C14 violated [%s] (attempt %d): %s", sig, i+1, msg)
+			}
+		}
+		return
+	}
+	rapid.Check(t, func(t *rapid.T) {
+		s := dialScn{Target: rapid.SampledFrom([]string{"tcp4", "tcp4", "tcp6", "unix", "refused", "blackhole", "blackhole", "reset"}).Draw(t, "target")}
+		if s.Target == "tcp6" && !hasIPv6() {
+			s.Target = "tcp4"
+		}
+		s.TimeoutUS = rapid.SampledFrom([]int{50, 100, 200, 500, 1000, 5000, 20000, 100000, 300000}).Draw(t, "timeout")
+		s.N = rapid.SampledFrom([]int{1, 1, 2, 8, 32}).Draw(t, "n")
+		sig, msg, timedOut, failed := runDial(s)
+		st.eval()
+		if sig != "" {
+			vReport(vViolation{Property: "C14", Slot: "rapid:C14", Signature: sig, Message: msg, Replay: map[string]interface{}{"scenario": s}})
+			t.Fatalf("C14 violated [%s]: %s\nscenario %+v", sig, msg, s)
+		}
+		st.class("target-" + s.Target)
+		st.classN("timed-out-dials", int64(timedOut))
+		st.classN("failed-dials", int64(failed))
+		if failed > 0 {
+			st.class("nontrivial")
+			if st.nontrivial(fmt.Sprintf("%+v|%d|%d", s, timedOut, failed)) {
+				st.sample(map[string]interface{}{"scenario": s, "timed_out": timedOut, "failed": failed})
+			}
+		}
+	})
+}
+
+// ------------------------------------------------------------------ C15: descriptor ownership
+
+type fdAudit struct {
+	mu      sync.Mutex
+	victims map[int]bool
+	closed  []int
+	bad     []string
+	devnull int
+	n       int
+}
+
+var theAudit *fdAudit
+
+func startAudit() *fdAudit {
+	dn, err := syscall.Open("/dev/null", syscall.O_RDONLY, 0)
+	if err != nil {
+		return nil
+	}
+	a := &fdAudit{victims: map[int]bool{}, devnull: dn}
+	theAudit = a
+	vsSetCloseAudit(func(point, fd int) {
+		a.mu.Lock()
+		defer a.mu.Unlock()
+		a.n++
+		a.parkLocked()
+		switch {
+		case a.victims[fd]:
+			a.bad = append(a.bad, fmt.Sprintf("netpoll closes descriptor %d a second time: the number had already been closed by netpoll and now belongs to somebody else (%s)", fd, e2PointTable[point]))
+		case !fdOpen(fd):
+			a.bad = append(a.bad, fmt.Sprintf("netpoll closes descriptor %d which is not open (%s)", fd, e2PointTable[point]))
+		default:
+			a.closed = append(a.closed, fd)
+		}
+	})
+	return a
+}
+
+// parkLocked puts a harness-owned victim on every number whose audited close has meanwhile been executed,
+// so that a second close of the number is caught at its own audit instead of depending on reuse luck.
+func (a *fdAudit) parkLocked() {
+	rest := a.closed[:0]
+	for _, n := range a.closed {
+		if fdOpen(n) {
+			rest = append(rest, n) // not executed yet (or already re-used by netpoll itself)
+			continue
+		}
+		r, _, e := syscall.Syscall(syscall.SYS_FCNTL, uintptr(a.devnull), syscall.F_DUPFD, uintptr(n))
+		if e == 0 && int(r) == n {
+			a.victims[n] = true
+		} else if e == 0 {
+			syscall.Close(int(r))
+		}
+	}
+	a.closed = rest
+}
+
+func (a *fdAudit) stop() []string {
+	vsSetCloseAudit(nil)
+	a.mu.Lock()
+	defer a.mu.Unlock()
+	for n := range a.victims {
+		syscall.Close(n)
+	}
+	syscall.Close(a.devnull)
+	theAudit = nil
+	return a.bad
+}
+
+type fdScn struct {
+	Steps []string `json:"steps"`
+}
+
+var fdStepKinds = []string{"dial-tcp", "dial-unix", "dial-refused", "dial-timeout", "server-tcp", "server-unix", "fdconn", "detach", "manager", "listener-create", "concurrent-close"}
+
+func censusKinds() map[string]int {
+	m := map[string]int{}
+	for _, l := range fdCensus() {
+		switch {
+		case strings.HasPrefix(l, "socket:"):
+			m["socket"]++
+		case strings.Contains(l, "eventpoll"):
+			m["eventpoll"]++
+		case strings.Contains(l, "eventfd"):
+			m["eventfd"]++
+		}
+	}
+	return m
+}
+
+func runFDStep(kind string) string {
+	switch kind {
+	case "dial-tcp", "dial-unix":
+		nw := "tcp4"
+		if kind == "dial-unix" {
+			nw = "unix"
+		}
+		ln, addr, err := e3Listen(nw)
+		if err != nil {
+			return ""
+		}
+		go func() {
+			for {
+				c, err := ln.Accept()
+				if err != nil {
+					return
+				}
+				go func() { io.Copy(c, c); c.Close() }()
+			}
+		}()
+		net := "tcp"
+		if nw == "unix" {
+			net = "unix"
+		}
+		c, err := DialConnection(net, addr, time.Second)
+		if err == nil {
+			c.Write([]byte("ping"))
+			c.SetReadTimeout(5 * time.Second)
+			c.Reader().Next(4)
+			c.Reader().Release()
+			c.Close()
+		}
+		ln.Close()
+		if nw == "unix" {
+			os.Remove(addr)
+		}
+	case "dial-refused":
+		ln, addr, err := e3Listen("tcp4")
+		if err != nil {
+			return ""
+		}
+		ln.Close()
+		if c, err := DialConnection("tcp", addr, 200*time.Millisecond); err == nil {
+			c.Close()
+		}
+	case "dial-timeout":
+		addr, cl, ok := blackhole()
+		if !ok {
+			return ""
+		}
+		if c, err := DialConnection("tcp", addr, 2*time.Millisecond); err == nil {
+			c.Close()
+		}
+		cl()
+	case "server-tcp", "server-unix":
+		nw := "tcp4"
+		if kind == "server-unix" {
+			nw = "unix"
+		}
+		nl, addr, err := e3Listen(nw)
+		if err != nil {
+			return ""
+		}
+		evl, _ := NewEventLoop(func(ctx context.Context, conn Connection) error {
+			n := conn.Reader().Len()
+			p, _ := conn.Reader().Next(n)
+			w, _ := conn.Writer().Malloc(n)
+			copy(w, p)
+			conn.Reader().Release()
+			conn.Writer().Flush()
+			return nil
+		})
+		done := make(chan error, 1)
+		go func() { done <- evl.Serve(nl) }()
+		dn := "tcp"
+		if nw == "unix" {
+			dn = "unix"
+		}
+		var cs []net.Conn
+		for i := 0; i < 3; i++ {
+			if c, err := net.DialTimeout(dn, addr, time.Second); err == nil {
+				c.Write([]byte("hello"))
+				c.SetReadDeadline(time.Now().Add(5 * time.Second))
+				io.ReadFull(c, make([]byte, 5))
+				cs = append(cs, c)
+			}
+		}
+		if len(cs) > 0 {
+			cs[0].Close() // one client leaves before the shutdown
+		}
+		ctx, cancel := context.WithTimeout(context.Background(), 5*time.Second)
+		if err := evl.Shutdown(ctx); err != nil {
+			cancel()
+			return "Shutdown of an idle server failed: " + err.Error()
+		}
+		cancel()
+		<-done
+		for _, c := range cs {
+			c.Close()
+		}
+		if nw == "unix" {
+			os.Remove(addr)
+		}
+	case "listener-create":
+		path := filepath.Join(os.TempDir(), fmt.Sprintf("verif-l-%d-%d.sock", os.Getpid(), atomic.AddInt64(&e3SockSeq, 1)))
+		if l, err := CreateListener("unix", path); err == nil {
+			l.Close()
+		}
+		os.Remove(path)
+		if l, err := CreateListener("tcp", "127.0.0.1:0"); err == nil {
+			l.Close()
+		}
+	case "fdconn", "detach":
+		fds, err := syscall.Socketpair(syscall.AF_UNIX, syscall.SOCK_STREAM, 0)
+		if err != nil {
+			return ""
+		}
+		c, err := NewFDConnection(fds[0])
+		if err != nil {
+			syscall.Close(fds[0])
+			syscall.Close(fds[1])
+			return ""
+		}
+		syscall.Write(fds[1], []byte("x"))
+		c.SetReadTimeout(5 * time.Second)
+		c.Reader().Next(1)
+		c.Reader().Release()
+		if kind == "detach" {
+			c.(*connection).Detach()
+			if !fdOpen(fds[0]) {
+				syscall.Close(fds[1])
+				return "Detach closed the descriptor it was supposed to leave open"
+			}
+			syscall.Close(fds[0])
+		} else {
+			c.Close()
+		}
+		syscall.Close(fds[1])
+	case "concurrent-close":
+		var conns []Connection
+		var peers []int
+		for i := 0; i < 4; i++ {
+			fds, err := syscall.Socketpair(syscall.AF_UNIX, syscall.SOCK_STREAM, 0)
+			if err != nil {
+				continue
+			}
+			c, err := NewFDConnection(fds[0])
+			if err != nil {
+				syscall.Close(fds[0])
+				syscall.Close(fds[1])
+				continue
+			}
+			conns = append(conns, c)
+			peers = append(peers, fds[1])
+		}
+		var wg sync.WaitGroup
+		for _, c := range conns {
+			for k := 0; k < 2; k++ {
+				wg.Add(1)
+				go func(c Connection) { defer wg.Done(); c.Close() }(c)
+			}
+		}
+		for _, p := range peers {
+			wg.Add(1)
+			go func(p int) { defer wg.Done(); syscall.Close(p) }(p)
+		}
+		wg.Wait()
+	case "manager":
+		m := newManager(2)
+		m.Pick()
+		m.SetNumLoops(4)
+		m.Pick()
+		m.SetNumLoops(1)
+		m.Pick()
+		m.Close()
+	}
+	return ""
+}
+
+func runFD(s fdScn) (sig, msg string) {
+	e3Init()
+	Initialize()
+	time.Sleep(2 * time.Millisecond)
+	base := censusKinds()
+	a := startAudit()
+	if a == nil {
+		return "", ""
+	}
+	var stepErr string
+	for _, k := range s.Steps {
+		if e := runFDStep(k); e != "" && stepErr == "" {
+			stepErr = k + ": " + e
+		}
+	}
+	// closing is asynchronous for server-side connections and pollers: wait for the census to settle
+	var now map[string]int
+	settled := false
+	for i := 0; i < 1000; i++ {
+		a.mu.Lock()
+		a.parkLocked()
+		a.mu.Unlock()
+		now = censusKinds()
+		if now["socket"] <= base["socket"] && now["eventpoll"] <= base["eventpoll"] && now["eventfd"] <= base["eventfd"] {
+			settled = true
+			break
+		}
+		time.Sleep(5 * time.Millisecond)
+	}
+	bad := a.stop()
+	if len(bad) > 0 {
+		return "bad-close", fmt.Sprintf("%s (steps %v)", bad[0], s.Steps)
+	}
+	if stepErr != "" {
+		return "step-failed", stepErr
+	}
+	if !settled {
+		return "descriptor-leak", fmt.Sprintf("descriptors before %v, after everything was closed %v (steps %v)", base, now, s.Steps)
+	}
+	return "", ""
+}
+
+func TestVerifC15(t *testing.T) {
+	st := newStats("C15")
+	defer st.write()
+	if vReplay != "" {
+		var rec struct {
+			Scenario fdScn `json:"scenario"`
+		}
+		if err := vLoadReplay(&rec); err != nil {
+			t.Fatalf("replay: %v", err)
+		}
+		st.eval()
+		for i := 0; i < 5; i++ {
+			if sig, msg := runFD(rec.Scenario); sig != "" {
+				vReport(vViolation{Property: "C15", Slot: "replay:C15", Signature: sig, Message: msg, Replay: map[string]interface{}{"scenario": rec.Scenario}})
+				t.Fatalf("C15 violated [%s]: %s", sig, msg)
+			}
+		}
+		return
+	}
+	rapid.Check(t, func(t *rapid.T) {
+		s := fdScn{}
+		for i, n := 0, rapid.IntRange(1, 6).Draw(t, "nsteps"); i < n; i++ {
+			s.Steps = append(s.Steps, rapid.SampledFrom(fdStepKinds).Draw(t, "step"))
+		}
+		sig, msg := runFD(s)
+		st.eval()
+		if sig != "" {
+			vReport(vViolation{Property: "C15", Slot: "rapid:C15", Signature: sig, Message: msg, Replay: map[string]interface{}{"scenario": s}})
+			t.Fatalf("C15 violated [%s]: %s", sig, msg)
+		}
+		nontrivial := false
+		for _, k := range s.Steps {
+			st.class("step-" + k)
+			if k == "dial-refused" || k == "dial-timeout" || k == "concurrent-close" || strings.HasPrefix(k, "server") {
+				nontrivial = true
+			}
+		}
+		if nontrivial {
+			st.class("nontrivial")
+			if st.nontrivial(fmt.Sprint(s.Steps)) {
+				st.sample(s)
+			}
+		}
+	})
+}
+
+// ------------------------------------------------------------------ C18: poller pool
+
+type poolPhase struct {
+	Loops      int `json:"loops"`
+	LB         int `json:"lb"` // 0 round robin, 1 random
+	Goroutines int `json:"goroutines"`
+	Picks      int `json:"picks"`
+}
+
+type poolScn struct {
+	First  int         `json:"first"` // size given to newManager
+	Phases []poolPhase `json:"phases"`
+}
+
+// pollerAlive registers a socketpair end on the poller and expects its OnRead callback after one byte.
+func pollerAlive(p Poll) bool {
+	fds, err := syscall.Socketpair(syscall.AF_UNIX, syscall.SOCK_STREAM, 0)
+	if err != nil {
+		return true
+	}
+	defer syscall.Close(fds[0])
+	defer syscall.Close(fds[1])
+	fired := make(chan struct{}, 1)
+	op := &FDOperator{FD: fds[0], poll: p}
+	op.OnRead = func(Poll) error {
+		var b [8]byte
+		syscall.Read(fds[0], b[:])
+		select {
+		case fired <- struct{}{}:
+		default:
+		}
+		return nil
+	}
+	if err := op.Control(PollReadable); err != nil {
+		return false
+	}
+	defer op.Control(PollDetach)
+	syscall.Write(fds[1], []byte("x"))
+	select {
+	case <-fired:
+		return true
+	case <-time.After(10 * time.Second):
+		return false
+	}
+}
+
+func runPool(s poolScn) (sig, msg string) {
+	e3Init()
+	base := censusKinds()
+	m := newManager(s.First)
+	defer func() {
+		if m.polls != nil {
+			m.Close()
+		}
+	}()
+	for pi, ph := range s.Phases {
+		if pi > 0 || ph.Loops != s.First {
+			if err := m.SetNumLoops(ph.Loops); err != nil {
+				return "setnumloops", err.Error()
+			}
+		}
+		m.SetLoadBalance(LoadBalance(ph.LB))
+		counts := make([]map[Poll]int, ph.Goroutines)
+		var wg sync.WaitGroup
+		var nilPicks int32
+		for g := 0; g < ph.Goroutines; g++ {
+			g := g
+			counts[g] = map[Poll]int{}
+			wg.Add(1)
+			go func() {
+				defer wg.Done()
+				for i := 0; i < ph.Picks; i++ {
+					p := m.Pick()
+					if p == nil {
+						atomic.AddInt32(&nilPicks, 1)
+						continue
+					}
+					counts[g][p]++
+				}
+			}()
+		}
+		donec := make(chan struct{})
+		go func() { wg.Wait(); close(donec) }()
+		select {
+		case <-donec:
+		case <-time.After(30 * time.Second):
+			return "pick-hang", fmt.Sprintf("phase %d: Pick did not return\n%s", pi, goroutineDump())
+		}
+		if nilPicks > 0 {
+			return "nil-poller", fmt.Sprintf("phase %d: Pick returned nil %d times", pi, nilPicks)
+		}
+		if len(m.polls) != ph.Loops {
+			return "pool-size", fmt.Sprintf("phase %d: %d loops configured, the pool has %d", pi, ph.Loops, len(m.polls))
+		}
+		member := map[Poll]bool{}
+		for _, p := range m.polls {
+			member[p] = true
+		}
+		total := map[Poll]int{}
+		for _, c := range counts {
+			for p, n := range c {
+				if !member[p] {
+					return "foreign-poller", fmt.Sprintf("phase %d: Pick returned a poller that is not in the pool (a closed or stale one)", pi)
+				}
+				total[p] += n
+			}
+		}
+		for _, p := range m.polls {
+			if !pollerAlive(p) {
+				return "poller-not-running", fmt.Sprintf("phase %d: a poller of the pool does not dispatch events (its loop is not running)", pi)
+			}
+		}
+		if ph.LB == 0 {
+			lo, hi := 1<<30, 0
+			for _, p := range m.polls {
+				n := total[p]
+				if n < lo {
+					lo = n
+				}
+				if n > hi {
+					hi = n
+				}
+			}
+			if hi-lo > 1 {
+				return "round-robin-uneven", fmt.Sprintf("phase %d: %d picks over %d pollers, per-poller counts between %d and %d", pi, ph.Goroutines*ph.Picks, ph.Loops, lo, hi)
+			}
+		}
+		// surplus pollers of a shrink have released their descriptors
+		want := base["eventpoll"] + ph.Loops
+		ok := false
+		var now map[string]int
+		for i := 0; i < 600; i++ {
+			now = censusKinds()
+			if now["eventpoll"] == want && now["eventfd"] == base["eventfd"]+ph.Loops {
+				ok = true
+				break
+			}
+			time.Sleep(5 * time.Millisecond)
+		}
+		if !ok {
+			return "pool-descriptors", fmt.Sprintf("phase %d: %d loops, expected %d epoll and %d wake-up descriptors, found %d and %d", pi, ph.Loops, want, base["eventfd"]+ph.Loops, now["eventpoll"], now["eventfd"])
+		}
+	}
+	m.Close()
+	for i := 0; i < 600; i++ {
+		now := censusKinds()
+		if now["eventpoll"] == base["eventpoll"] && now["eventfd"] == base["eventfd"] {
+			return "", ""
+		}
+		time.Sleep(5 * time.Millisecond)
+	}
+	return "close-leak", fmt.Sprintf("after manager.Close: %v, baseline %v", censusKinds(), base)
+}
+
+func TestVerifC18(t *testing.T) {
+	st := newStats("C18")
+	defer st.write()
+	if vReplay != "" {
+		var rec struct {
+			Scenario poolScn `json:"scenario"`
+		}
+		if err := vLoadReplay(&rec); err != nil {
+			t.Fatalf("replay: %v", err)
+		}
+		st.eval()
+		for i := 0; i < 10; i++ {
+			if sig, msg := runPool(rec.Scenario); sig != "" {
+				vReport(vViolation{Property: "C18", Slot: "replay:C18", Signature: sig, Message: msg, Replay: map[string]interface{}{"scenario": rec.Scenario}})
+				t.Fatalf("C18 violated [%s]: %s", sig, msg)
+			}
+		}
+		return
+	}
+	rapid.Check(t, func(t *rapid.T) {
+		s := poolScn{First: rapid.IntRange(1, 5).Draw(t, "first")}
+		for i, n := 0, rapid.IntRange(1, 4).Draw(t, "phases"); i < n; i++ {
+			ph := poolPhase{Loops: rapid.IntRange(1, 6).Draw(t, "loops"), LB: rapid.IntRange(0, 1).Draw(t, "lb"),
+				Goroutines: rapid.SampledFrom([]int{1, 2, 8, 32}).Draw(t, "goroutines"), Picks: rapid.IntRange(1, 40).Draw(t, "picks")}
+			if i == 0 && rapid.Bool().Draw(t, "keepFirst") {
+				ph.Loops = s.First
+			}
+			s.Phases = append(s.Phases, ph)
+		}
+		sig, msg := runPool(s)
+		st.eval()
+		if sig != "" {
+			vReport(vViolation{Property: "C18", Slot: "rapid:C18", Signature: sig, Message: msg, Replay: map[string]interface{}{"scenario": s}})
+			t.Fatalf("C18 violated [%s]: %s\nscenario %+v", sig, msg, s)
+		}
+		shrink, conc := false, false
+		for i, ph := range s.Phases {
+			if i > 0 && ph.Loops < s.Phases[i-1].Loops {
+				shrink = true
+			}
+			if ph.Goroutines > 1 {
+				conc = true
+			}
+		}
+		if shrink {
+			st.class("shrink")
+		}
+		if conc {
+			st.class("concurrent-picks")
+			st.class("nontrivial")
+			if st.nontrivial(fmt.Sprintf("%+v", s)) {
+				st.sample(s)
+			}
+		}
+	})
+}
+
+// ------------------------------------------------------------------ C19: the workloads above under the race detector
+
+// runCloseRace: one reader, one writer, several closers on one connection pair (the documented concurrency contract).
+func runCloseRace(network string, closers int, payload int) string {
+	e3Init()
+	ln, addr, err := e3Listen(network)
+	if err != nil {
+		return ""
+	}
+	var srvConn atomic.Value
+	evl, _ := NewEventLoop(func(ctx context.Context, conn Connection) error {
+		n := conn.Reader().Len()
+		p, _ := conn.Reader().Next(n)
+		w, err := conn.Writer().Malloc(len(p))
+		if err == nil {
+			copy(w, p)
+			conn.Writer().Flush()
+		}
+		conn.Reader().Release()
+		return nil
+	}, WithOnPrepare(func(conn Connection) context.Context { srvConn.Store(conn); return context.Background() }),
+		WithOnDisconnect(func(ctx context.Context, conn Connection) {}),
+		WithOnConnect(func(ctx context.Context, conn Connection) context.Context { return ctx }))
+	done := make(chan error, 1)
+	go func() { done <- evl.Serve(ln) }()
+	nw := "tcp"
+	if network == "unix" {
+		nw = "unix"
+	}
+	c, err := DialConnection(nw, addr, 2*time.Second)
+	if err != nil {
+		return ""
+	}
+	c.SetReadTimeout(200 * time.Millisecond)
+	c.SetWriteTimeout(200 * time.Millisecond)
+	// Serve must have taken the listener over before Shutdown can stop it
+	for i := 0; i < 4000 && srvConn.Load() == nil; i++ {
+		time.Sleep(500 * time.Microsecond)
+	}
+	var wg sync.WaitGroup
+	wg.Add(2)
+	go func() { // the one writer
+		defer wg.Done()
+		for i := 0; i < 20; i++ {
+			p, err := c.Writer().Malloc(payload)
+			if err != nil {
+				return
+			}
+			copy(p, keyedBytes(i*payload, payload))
+			if c.Writer().Flush() != nil {
+				return
+			}
+		}
+	}()
+	go func() { // the one reader
+		defer wg.Done()
+		for i := 0; i < 20; i++ {
+			if _, err := c.Reader().Next(payload); err != nil {
+				return
+			}
+			c.Reader().Release()
+			c.IsActive()
+		}
+	}()
+	for k := 0; k < closers; k++ {
+		wg.Add(1)
+		k := k
+		go func() {
+			defer wg.Done()
+			time.Sleep(time.Duration(50*(k+1)) * time.Microsecond)
+			if k%2 == 1 {
+				if sc, _ := srvConn.Load().(Connection); sc != nil {
+					sc.Close()
+					return
+				}
+			}
+			c.Close()
+		}()
+	}
+	wg.Wait()
+	c.Close()
+	ctx, cancel := context.WithTimeout(context.Background(), 2*time.Second)
+	evl.Shutdown(ctx)
+	cancel()
+	<-done
+	if network == "unix" {
+		os.Remove(addr)
+	}
+	return ""
+}
+
+func TestVerifC19(t *testing.T) {
+	st := newStats("C19")
+	defer st.write()
+	Initialize()
+	rapid.Check(t, func(t *rapid.T) {
+		kind := rapid.SampledFrom([]string{"bulk", "bulk", "shutdown", "dial", "pool", "closerace", "closerace", "fdsteps"}).Draw(t, "workload")
+		st.eval()
+		roles := kind
+		switch kind {
+		case "bulk":
+			s := genLiveScn(t, false)
+			for i := range s.Conns {
+				if s.Conns[i].Total > 200000 {
+					s.Conns[i].Total = 200000
+				}
+				if s.Conns[i].Back > 100000 {
+					s.Conns[i].Back = 100000
+				}
+			}
+			if sig, msg := runLive(s); sig != "" {
+				st.class("functional-failure-ignored-here:" + sig)
+				_ = msg
+			}
+			roles = fmt.Sprintf("bulk/%s/%d", s.Network, len(s.Conns))
+		case "shutdown":
+			s := shutScn{Network: rapid.SampledFrom([]string{"tcp4", "unix"}).Draw(t, "network"), Idle: rapid.IntRange(0, 3).Draw(t, "idle"), Busy: rapid.IntRange(0, 2).Draw(t, "busy"), Closing: rapid.IntRange(0, 3).Draw(t, "closing"), DeadlineMS: 150, ReleaseMS: rapid.SampledFrom([]int{0, 20, -1}).Draw(t, "release")}
+			runShutdown(s)
+			roles = fmt.Sprintf("shutdown/%+v", s)
+		case "dial":
+			s := dialScn{Target: rapid.SampledFrom([]string{"tcp4", "unix", "refused", "blackhole", "reset"}).Draw(t, "target"), TimeoutUS: rapid.SampledFrom([]int{100, 1000, 20000}).Draw(t, "timeout"), N: rapid.SampledFrom([]int{2, 8, 16}).Draw(t, "n")}
+			runDial(s)
+			roles = fmt.Sprintf("dial/%s/%d", s.Target, s.N)
+		case "pool":
+			s := poolScn{First: rapid.IntRange(1, 3).Draw(t, "first")}
+			for i, n := 0, rapid.IntRange(1, 3).Draw(t, "phases"); i < n; i++ {
+				s.Phases = append(s.Phases, poolPhase{Loops: rapid.IntRange(1, 4).Draw(t, "loops"), LB: rapid.IntRange(0, 1).Draw(t, "lb"), Goroutines: rapid.SampledFrom([]int{2, 8}).Draw(t, "g"), Picks: rapid.IntRange(1, 20).Draw(t, "picks")})
+			}
+			runPool(s)
+			roles = fmt.Sprintf("pool/%d", len(s.Phases))
+		case "closerace":
+			nw := rapid.SampledFrom([]string{"tcp4", "unix"}).Draw(t, "network")
+			k := rapid.IntRange(1, 4).Draw(t, "closers")
+			pl := rapid.SampledFrom([]int{1, 100, 5000, 70000}).Draw(t, "payload")
+			runCloseRace(nw, k, pl)
+			roles = fmt.Sprintf("closerace/%s/%d/%d", nw, k, pl)
+		case "fdsteps":
+			for i, n := 0, rapid.IntRange(1, 3).Draw(t, "n"); i < n; i++ {
+				k := rapid.SampledFrom(fdStepKinds).Draw(t, "step")
+				runFDStep(k)
+				roles += "/" + k
+			}
+		}
+		st.class("workload-" + kind)
+		if st.nontrivial(roles) {
+			st.sample(roles)
+		}
+	})
+}
